@@ -464,7 +464,8 @@ def step1 (st : St) (op impl : String) : St × StepOut :=
                       overPort := c.overPort + (if pendingImpl then implH.length else 0),
                       exits := if implExit == "-" then c.exits else c.exits ++ [implExit],
                       gone := c.gone || implSt ≥ stStopping,
-                      otherExit := c.otherExit || (what != "run") }
+                      -- a refused stop / kill has no effect: only an accepted one excuses unhandled messages
+                      otherExit := c.otherExit || (what != "run" && implAcc) }
     -- the handler's sends to its own actor: complete sends that start and return on this line
     let implSelf : List (Nat × String) := match iw.findSome? (parseKV · "self") with
       | some "-" => []
@@ -477,7 +478,13 @@ def step1 (st : St) (op impl : String) : St × StepOut :=
       let oks := (c.rets.filter (fun r => r.kind == "send" && r.res == "ok")).map (·.id)
       { c with rets := c.rets ++ [{ kind := "send", id := id, res := r, late := c.closed, seenOk := oks, startLine := c.line, retLine := c.line }],
                raced := c.raced || c.drainClosed }) c
-    ({ st with g := g1, ps := ps1, c := c, exitReason := if exited then reason else st.exitReason, nextH := nextH }, { model := model })
+    -- round 4: the actor task ran until it blocked, the actor is still alive and no stop / kill was
+    -- accepted so far: every send that has returned Ok by now must have been handled by now
+    let quietOrc := if implSt < stDraining + 1 && !c.gone && !c.calls.any (·.accepted) then
+        quietViolations ((c.rets.filter (fun r => r.kind == "send" && r.res == "ok")).map (·.id)) c.handled
+      else []
+    ({ st with g := g1, ps := ps1, c := c, exitReason := if exited then reason else st.exitReason, nextH := nextH },
+      { model := model, oracle := quietOrc })
   | "end" :: _ =>
     let g := st.g
     let sup := if g.sh.rxOpen then "Started" else s!"Started,Terminated:{st.exitReason}"
